@@ -35,6 +35,7 @@ MIN_REACH = {
     "estimate_runs_beyond_1024_samples": {"quick": 3, "thorough": 30},
     "matrix_readouts_judged": {"quick": 200, "thorough": 3000},
     "ill_conditioned_samples": {"quick": 100, "thorough": 2000},
+    "matrix_chunks_fed_as_one_shot_iterators": {"quick": 10, "thorough": 200},
 }
 TIME_BUDGET = {"quick": 300, "thorough": 3000}
 
@@ -244,13 +245,17 @@ def run_case(ctx, case):
                     if i + 1 in stops and not bad:
                         cm = judge_prefix(i + 1)
             else:
-                # chunks of random sizes, fed through update_from_it (re-iterable chunks: the matrix walks each chunk once per pair) or one by one, read in between
+                # chunks of random sizes, fed through update_from_it (lists, tuples, or one-shot iterators - as the sibling
+                # update_from_it methods of RunningStatistics / RunningCovariance take them) or one by one, read in between
                 cuts = sorted(set(crng.sample(range(1, n), min(n - 1, crng.randint(1, 3))))) if n > 1 else []
                 lo = 0
                 for hi in cuts + [n]:
-                    how = crng.choice(["it", "it", "tuple", "single"])
+                    how = crng.choice(["it", "it", "tuple", "single", "oneshot"])
                     if how == "it":
                         rcm.update_from_it(*[s[lo:hi] for s in series])
+                    elif how == "oneshot":
+                        rcm.update_from_it(*[iter(s[lo:hi]) if k_ % 2 else (v_ for v_ in s[lo:hi]) for k_, s in enumerate(series)])
+                        ctx.count("matrix_chunks_fed_as_one_shot_iterators")
                     elif how == "tuple":
                         rcm.update_from_it(*[tuple(s[lo:hi]) for s in series])
                     else:
